@@ -26,6 +26,9 @@ pub struct Case {
     pub data: Data,
     pub kind: Kind,
     pub sizes: Vec<u32>,
+    /// Delta only: sizes of the write calls (cycled); empty = one write_all
+    #[serde(default)]
+    pub wplan: Vec<u32>,
 }
 
 pub struct C11;
@@ -300,6 +303,7 @@ impl Property for C11 {
                         data,
                         kind: Kind::Bcj { arch, start: s / al * al },
                         sizes,
+                        wplan: vec![],
                     })
                     .boxed()
             }
@@ -307,11 +311,16 @@ impl Property for C11 {
                 data_strategy(4, tier.pick(8000, 60_000)),
                 prop_oneof![Just(1u32), Just(256u32), 1u32..=256],
                 read_sizes_strategy(),
+                prop_oneof![
+                    1 => Just(vec![]),
+                    2 => proptest::collection::vec(prop_oneof![1u32..16, 1u32..600, 1u32..6000, Just(4096u32), Just(4097u32)], 1..6),
+                ],
             )
-                .prop_map(|(data, dist, sizes)| Case {
+                .prop_map(|(data, dist, sizes, wplan)| Case {
                     data,
                     kind: Kind::Delta { dist },
                     sizes,
+                    wplan,
                 })
                 .boxed(),
             _ => (
@@ -329,6 +338,7 @@ impl Property for C11 {
                         chunk,
                     },
                     sizes,
+                    wplan: vec![],
                 })
                 .boxed(),
         }
@@ -427,10 +437,22 @@ impl Property for C11 {
             }
             Kind::Delta { dist } => {
                 obs.class("delta");
+                obs.class_if(case.wplan.iter().any(|&n| n != 0) && data.len() > case.wplan[0] as usize, "delta_multiwrite");
                 let f = RefFilter::Delta(*dist);
                 let ours = no_panic("delta-write", || -> io::Result<Vec<u8>> {
                     let mut w = DeltaWriter::new(Vec::new(), *dist as usize);
-                    w.write_all(&data)?;
+                    if case.wplan.iter().all(|&n| n == 0) {
+                        w.write_all(&data)?;
+                    } else {
+                        let mut off = 0usize;
+                        let mut i = 0usize;
+                        while off < data.len() {
+                            let n = (case.wplan[i % case.wplan.len()] as usize).min(data.len() - off);
+                            i += 1;
+                            w.write_all(&data[off..off + n])?;
+                            off += n;
+                        }
+                    }
                     Ok(w.into_inner())
                 })?
                 .map_err(|e| Failure::new("delta-write-failed", e.to_string()))?;
